@@ -39,7 +39,7 @@ Inductive case :=
 | CBinBin (sz origin : Q) (dir : Z) (x : Q) (r : Z)
 | CBinSample (idx : Z) (x0 x1 : Q) (dir : Z) (r : res bin1d)
 | CRws (A : mat2) (r : res (mat2 * mat2 * mat2))
-| CResAff (A : aff) (r : res (Q * Q)).
+| CResAff (A : aff) (tol : Q) (r : res (Q * Q)).
 
 Definition check (c : case) : bool :=
   match c with
@@ -66,5 +66,5 @@ Definition check (c : case) : bool :=
   | CBinBin sz o d x r => bin1d_bin (mkBin sz o d) x =? r
   | CBinSample i x0 x1 d r => res_eqb bin_eqb (bin1d_from_sample_bin i (x0, x1) d) r
   | CRws A r => res_eqb (pair_eqb (pair_eqb mat2_eqb mat2_eqb) mat2_eqb) (decompose_rws A) r
-  | CResAff A r => res_eqb qq_eqb (resolution_from_affine A) r
+  | CResAff A tol r => res_eqb qq_eqb (resolution_from_affine A tol) r
   end.
